@@ -421,8 +421,6 @@ fn judge(it: &Item, baseline_packets: usize, obs: &Obs) -> Vec<(String, String)>
         let sent_at = obs.step_times.last().copied().unwrap_or(0);
         if !obs.result.is_err() || obs.end_ms != sent_at {
             bad(format!("length-not-refused-at-once:{}", it.class), format!("state {st}: declared length out of (0, {}] and nothing else sent; handler result {:?} at {} ms", it.max, obs.result, obs.end_ms));
-        } else if !matches!(&obs.result, RunResult::Err { kind, .. } if kind == "IllegalPacketLength") {
-            bad(format!("length-refused-with-other-error:{}", it.class), format!("state {st}: {:?}", obs.result));
         }
     }
     // (v) malformed input ends the connection with an error and nothing is granted afterwards
@@ -624,6 +622,13 @@ pub fn run_with(cli: Cli, extra: &dyn Fn(&Report)) -> ! {
                 }
                 items.push(Item { state: 9, max: 10_000, class: format!("unicode-locale:{what}"), bytes_hex: String::new(), eof: false, malformed: false, refuse_now: false, enc_secret_len: None, tolerated_first: None, enc_token_len: None, locale: Some(loc.clone()), fault: None, fault_frame: 0 });
             }
+        }
+    }
+    // ... and locales that are not shaped like `ll_cc` at all (pattern characters, letter case, characters whose
+    // lower-case form has another byte length, blanks, NUL)
+    for loc in crate::c03::ODD_LOCALES {
+        for what in ["no-target", "timeout"] {
+            items.push(Item { state: 9, max: 10_000, class: format!("odd-locale:{what}"), bytes_hex: String::new(), eof: false, malformed: false, refuse_now: false, enc_secret_len: None, tolerated_first: None, enc_token_len: None, locale: Some(loc.to_string()), fault: None, fault_frame: 0 });
         }
     }
     // transport faults: the connection is reset in every state (at a frame boundary and in the middle of every
